@@ -28,6 +28,7 @@ class Rig:
         m = self.local.tpdo[1]
         m.clear()
         self.var = m.add_variable(C.TYPE_INDEX[0x06])      # one UNSIGNED16
+        self.nib = m.add_variable(C.TYPE_INDEX[0x05], 0, 4)   # and a 4-bit field (bit-field code path)
         m.cob_id = PDO_COB
         m.enabled = True
         m.subscribe()
@@ -146,7 +147,11 @@ def op_pdo(rig, which):
             sx.prove(m.period == rig.pdo_period, "received frames changed the period of a transmitting map",
                      "C17/pdo/echo-period")
     else:
-        rig.var.raw = sx.fresh_int("val", 0, 0xFFFF)
+        if sx.choice(2, "field"):
+            rig.nib.raw = sx.fresh_int("nibble", 0, 15)
+            sx.reach("pdo-assign-bits")
+        else:
+            rig.var.raw = sx.fresh_int("val", 0, 0xFFFF)
     sx.reach("pdo-" + which)
 
 
@@ -156,7 +161,16 @@ def _hb_after_state(rig, old, new):
 
 def op_hb(rig, which):
     node = rig.local
-    if which == "write1017":
+    if which == "write1017" and sx.choice(2, "malformed"):
+        # a download to 0x1017 with the wrong length arrives over the bus and is refused: nothing changes
+        n0 = len(rig.bus.sent)
+        wrong = sx.fresh_bytes("wrong", 4)
+        rig.net.notify(0x600 + LOCAL_ID, sx.mkbytes([0x23, 0x17, 0x10, 0x00] + sx.items(wrong)), 0.0)
+        resp = [m for m in rig.bus.sent[n0:] if bool(m.arbitration_id == 0x580 + LOCAL_ID)]
+        sx.prove(len(resp) == 1 and bool(sx.items(resp[0].data)[0] == 0x80), "wrong-length write to 0x1017 not refused",
+                 "C17/hb/malformed-accepted")
+        sx.reach("hb-malformed")
+    elif which == "write1017":
         t = sx.fresh_int("hbt", 0, 0xFFFF)
         node.sdo[0x1017].raw = t
         if bool(t == 0):
@@ -304,7 +318,7 @@ META = dict(
     assumptions=["periods are positive integers (seconds) in the harness; heartbeat time t ms gives period t/1000.0"],
     stubs=["can (model bus with live task set)", "struct", "threading", "logging"],
     required_reach=["sync-start_p", "sync-start", "sync-stop", "pdo-start_p", "pdo-start", "pdo-stop", "pdo-update",
-                    "pdo-assign", "pdo-echo", "hb-write1017", "hb-zero", "hb-command", "hb-state", "hb-boot", "guard-start",
+                    "pdo-assign", "pdo-assign-bits", "pdo-echo", "hb-write1017", "hb-malformed", "hb-zero", "hb-command", "hb-state", "hb-boot", "guard-start",
                     "guard-stop", "disconnect", "cross"],
     limits=dict(quick=dict(max_decisions=20000), thorough=dict(max_decisions=50000, job_timeout_s=3000)),
     validate_every=dict(quick=7, thorough=101),
